@@ -74,3 +74,17 @@ Example C12_flipped_bit :
   = OFail (CParse EInvalidCRC) /\
   with_crc [1; 3; 2; 0x12; 0x34] = [1; 3; 2; 0x12; 0x34; 0xB5; 0x33].
 Proof. cbn zeta. split; vm_compute; reflexivity. Qed.
+
+(* a VALID reply of the maximum size (FC3, 125 registers: 255 bytes) that arrives together with
+   trailing bytes is not returned: within the client's limit the parser sees the inconsistent
+   trailer, beyond it the result is ErrPacketTooLong (serial 256, network 260) *)
+Example C12_extended_maximum_reply :
+  let q := rq true (RRead 3 1 0 125) in
+  let reply := reply_bytes q (PBytes 3 1 250 (repeat 7 250)) in
+  length reply = 255%nat /\
+  fst (client_do (cfg_of KSerial) (plain [deliver false reply]) (Some q)) = OResp 0 (PBytes 3 1 250 (repeat 7 250)) /\
+  fst (client_do (cfg_of KSerial) (plain [deliver false (reply ++ [9])]) (Some q)) = OFail (CParse EInvalidCRC) /\
+  fst (client_do (cfg_of KSerial) (plain [deliver true (reply ++ [9; 9; 9])]) (Some q)) = OFail CTooLong /\
+  fst (client_do (cfg_of KRtuNet) (plain [deliver false (reply ++ [9; 9; 9])]) (Some q)) = OFail (CParse EInvalidCRC) /\
+  fst (client_do (cfg_of KRtuNet) (plain [deliver false (reply ++ repeat 9 6)]) (Some q)) = OFail CTooLong.
+Proof. cbn zeta. repeat split; vm_compute; reflexivity. Qed.
